@@ -34,21 +34,25 @@ func c14PayloadIsWhatWasRead(c *Ctx) {
 			return x.Value != nil && x.Value.ExactString() == "0"
 		case *ssa.Extract:
 			call, ok := x.Tuple.(*ssa.Call)
-			if !ok || x.Index != 0 {
+			if !ok {
 				return false
 			}
 			cc := call.Common()
 			if cc.IsInvoke() {
-				return cc.Method.Name() == "Read"
+				return x.Index == 0 && cc.Method.Name() == "Read"
 			}
 			f := cc.StaticCallee()
 			if f == nil {
 				return false
 			}
 			if FuncIs(f, "io", "ReadFull") || FuncIs(f, "io", "ReadAtLeast") {
-				return true
+				return x.Index == 0
 			}
-			return helperReturnsCount(f, 0, cc.Args, seen, d, readCount)
+			if !InRepo(f) {
+				return x.Index == 0 && f.Name() == "Read"
+			}
+			// (buffer, count) := helper(conn): the count result of an in-repo helper
+			return helperReturnsCount(f, x.Index, cc.Args, seen, d, readCount)
 		case *ssa.Call:
 			f := x.Call.StaticCallee()
 			if f == nil || !InRepo(f) {
@@ -100,19 +104,43 @@ func c14PayloadIsWhatWasRead(c *Ctx) {
 			if f == nil || f != payloadFn || len(call.Common().Args) != 1 {
 				continue
 			}
-			n++
-			key := shortFn(fn) + " event.Payload"
-			sl, ok := Unwrap(call.Common().Args[0]).(*ssa.Slice)
-			if !ok {
-				c.Violate(rule, key, p.InstrPos(call), "the payload of a port decoder is not a slice buff[:n] of its read buffer (`"+RenderN(call.Common().Args[0], 3)+"`)")
-				continue
+			// the payload handed in by the callers of an event-building helper: judged where it is cut
+			type site struct {
+				arg ssa.Value
+				at  ssa.Instruction
+				in  *ssa.Function
 			}
-			okLow := sl.Low == nil
-			if k, isC := sl.Low.(*ssa.Const); isC && k.Value != nil && k.Value.ExactString() == "0" {
-				okLow = true
+			sites := []site{{call.Common().Args[0], call, fn}}
+			if par, isPar := Unwrap(call.Common().Args[0]).(*ssa.Parameter); isPar {
+				sites = nil
+				idx := paramIdx(par)
+				for _, g := range p.FuncsIn(canaryRel) {
+					for _, c2 := range Calls(g) {
+						if c2.Common().StaticCallee() == fn && idx >= 0 && idx < len(c2.Common().Args) {
+							sites = append(sites, site{c2.Common().Args[idx], c2, g})
+						}
+					}
+				}
+				if len(sites) == 0 {
+					c.Undecided(rule, shortFn(fn)+" event.Payload", p.InstrPos(call), "the payload is a parameter of a function nobody calls")
+					continue
+				}
 			}
-			okHigh := sl.High != nil && readCount(sl.High, map[ssa.Value]bool{}, 0)
-			c.Check(okLow && okHigh, rule, key, p.InstrPos(call), "buff[:n] with n the count Read returned", "the reported payload is `"+RenderN(sl, 3)+"` and its bound is not (a sum of) what Read returned for that buffer: bytes the client never sent are reported (zero padding up to a length the client announced) or the first pushed segment is cut short")
+			for _, s := range sites {
+				n++
+				key := shortFn(s.in) + " event.Payload"
+				sl, ok := Unwrap(s.arg).(*ssa.Slice)
+				if !ok {
+					c.Violate(rule, key, p.InstrPos(s.at), "the payload of a port decoder is not a slice buff[:n] of its read buffer (`"+RenderN(s.arg, 3)+"`)")
+					continue
+				}
+				okLow := sl.Low == nil
+				if k, isC := sl.Low.(*ssa.Const); isC && k.Value != nil && k.Value.ExactString() == "0" {
+					okLow = true
+				}
+				okHigh := sl.High != nil && readCount(sl.High, map[ssa.Value]bool{}, 0)
+				c.Check(okLow && okHigh, rule, key, p.InstrPos(s.at), "buff[:n] with n the count Read returned", "the reported payload is `"+RenderN(sl, 3)+"` and its bound is not (a sum of) what Read returned for that buffer: bytes the client never sent are reported (zero padding up to a length the client announced) or the first pushed segment is cut short")
+			}
 		}
 	}
 	c.Check(n >= 6, rule, "decoder payload sites", "-", "", "fewer port decoders report a payload than the raw listener has")
